@@ -21,6 +21,7 @@ fn main() {
     let code = match cfg.prop.as_str() {
         "C02" => props::c02::run(&cfg),
         "C05" => props::c05::run(&cfg),
+        "C08" => props::c08::run(&cfg),
         "C09" => props::c09::run(&cfg),
         "C16" => props::c16::run(&cfg),
         "C17" => props::c17::run(&cfg),
